@@ -17,6 +17,58 @@
 import ast
 
 
+def wrapper_facts(read, die):
+    """TreeSequence.write_vcf hands every one of its parameters to VcfWriter under the same name,
+    and as_vcf hands *args/**kwargs to write_vcf."""
+    tree = ast.parse(read("python/tskit/trees.py"))
+    cls = [n for n in tree.body if isinstance(n, ast.ClassDef) and n.name == "TreeSequence"]
+    if len(cls) != 1:
+        die("facts_c16: class TreeSequence not found")
+    fns = {n.name: n for n in cls[0].body if isinstance(n, ast.FunctionDef)}
+    for name in ("write_vcf", "as_vcf"):
+        if name not in fns:
+            die("facts_c16: TreeSequence.%s not found" % name)
+    wv = fns["write_vcf"]
+    params = [a.arg for a in wv.args.args[2:]] + [a.arg for a in wv.args.kwonlyargs]   # after self, output
+    if wv.args.vararg or wv.args.kwarg or [a.arg for a in wv.args.args[:2]] != ["self", "output"]:
+        die("facts_c16: unexpected signature of write_vcf")
+    calls = [n for n in ast.walk(wv) if isinstance(n, ast.Call) and isinstance(n.func, ast.Attribute)
+             and n.func.attr == "VcfWriter"]
+    if len(calls) != 1 or len(calls[0].args) != 1 or getattr(calls[0].args[0], "id", None) != "self":
+        die("facts_c16: expected exactly one vcf.VcfWriter(self, ...) call in write_vcf")
+    forwarded = []
+    for k in calls[0].keywords:
+        if k.arg is None or not isinstance(k.value, ast.Name):
+            die("facts_c16: VcfWriter keyword %r is not a plain name" % k.arg)
+        forwarded.append(k.arg + "=" + k.value.id)
+    # parameters may only be rebound by `if x is None: x = <constant>` (documented defaults)
+    for n in ast.walk(wv):
+        if isinstance(n, ast.Assign):
+            for t in n.targets:
+                if isinstance(t, ast.Name) and t.id in params and not isinstance(n.value, ast.Constant):
+                    die("facts_c16: write_vcf rebinds parameter %s to a non-constant" % t.id)
+    wcalls = [n for n in ast.walk(wv) if isinstance(n, ast.Call) and isinstance(n.func, ast.Attribute)
+              and n.func.attr == "write" and getattr(n.func.value, "id", None) == "writer"]
+    if len(wcalls) != 1 or [getattr(a, "id", None) for a in wcalls[0].args] != ["output"]:
+        die("facts_c16: write_vcf does not end in writer.write(output)")
+    av = fns["as_vcf"]
+    ok = av.args.vararg is not None and av.args.kwarg is not None
+    acalls = [n for n in ast.walk(av) if isinstance(n, ast.Call) and isinstance(n.func, ast.Attribute)
+              and n.func.attr == "write_vcf"]
+    ok = ok and len(acalls) == 1 and len(acalls[0].args) == 2 and isinstance(acalls[0].args[1], ast.Starred) \
+        and getattr(acalls[0].args[1].value, "id", None) == av.args.vararg.arg \
+        and len(acalls[0].keywords) == 1 and acalls[0].keywords[0].arg is None \
+        and getattr(acalls[0].keywords[0].value, "id", None) == av.args.kwarg.arg
+    return params, forwarded, ok
+
+
+def cstrs(xs):
+    for x in xs:
+        if not all(c.isalnum() or c in "_=" for c in x):
+            raise ValueError(x)
+    return "[" + "; ".join('"%s"%%string' % x for x in xs) + "]"
+
+
 def facts(read, die, define):
     tree = ast.parse(read("python/tskit/vcf.py"))
     cls = [n for n in tree.body if isinstance(n, ast.ClassDef) and n.name == "VcfWriter"]
@@ -81,7 +133,11 @@ def facts(read, die, define):
                 die("facts_c16: unrecognised test on is_sample in __make_sample_mapping")
     if len(strict) != 1 or len(zero_guard) > 1:
         die("facts_c16: expected exactly one is_sample test and at most one zero-sample guard")
-    return ["Definition c16_zero_samples_rejected : bool := %s." % ("true" if zero_guard else "false"),
+    params, forwarded, as_ok = wrapper_facts(read, die)
+    wrapper = ["Definition c16_write_vcf_params : list string := %s." % cstrs(params),
+               "Definition c16_vcfwriter_keywords : list string := %s." % cstrs(forwarded),
+               "Definition c16_as_vcf_forwards_all : bool := %s." % ("true" if as_ok else "false")]
+    return wrapper + ["Definition c16_zero_samples_rejected : bool := %s." % ("true" if zero_guard else "false"),
             "Definition c16_individuals_must_be_samples : bool := %s." % ("true" if strict[0] else "false"),
             "Definition c16_poszero_uses_raw_site_mask : bool := %s." % ("true" if inverted[0] else "false"),
             "Definition c16_max_alleles : Z := %d." % limits[0]]
